@@ -38,6 +38,13 @@ pub struct QueryCase {
     /// per-shard counts are sampled while the workers are busy
     #[serde(default)]
     pub slow_metric_us: u16,
+    /// merges (destination index, source index into `stored`, remove the source) carried out with
+    /// merge history on before the query: the stored tracks then have histories of several ids
+    #[serde(default)]
+    pub merges: Vec<(u8, u8, bool)>,
+    /// 1: the caller drops the result half unread and reads only the errors; 2: the reverse
+    #[serde(default)]
+    pub drop_half: u8,
 }
 
 type Item = (u64, u64, Option<i64>, Option<i32>);
@@ -60,6 +67,37 @@ pub fn check_query(c: &QueryCase) -> CaseResult {
         let (t, m) = build_both(d, &ctl, &n);
         store.add_track(t).map_err(|e| Fail::new("harness", format!("{}", e)))?;
         model.insert(d.id, m);
+    }
+    let mut merged = 0usize;
+    if !c.stored.is_empty() {
+        for (d, s_, remove) in &c.merges {
+            let (dest, src) = (c.stored[*d as usize % c.stored.len()].id, c.stored[*s_ as usize % c.stored.len()].id);
+            if dest == src || !model.contains_key(&dest) || !model.contains_key(&src) {
+                continue;
+            }
+            let r = store.merge_owned(dest, src, None, *remove, true);
+            let sm = model.get(&src).unwrap().clone();
+            let (mr, _) = model.get_mut(&dest).unwrap().merge(&sm, &sm.classes(), true);
+            if r.is_ok() != mr.is_ok() {
+                // the merge itself is C09 / C11 material: not judged here
+                return Ok(CaseOk::trivial().label("setup_merge_disagrees"));
+            }
+            if mr.is_ok() {
+                merged += 1;
+                if *remove {
+                    model.remove(&src);
+                }
+            }
+        }
+        if merged > 0 {
+            for sh in 0..c.shards {
+                for (id, t) in store.get_store(sh).iter() {
+                    if model.get(id).map(|m| m.snap()) != Some(snap_track(t)) {
+                        return Ok(CaseOk::trivial().label("setup_merge_disagrees"));
+                    }
+                }
+            }
+        }
     }
     let before: BTreeMap<u64, Snap> = model.iter().map(|(k, v)| (*k, v.snap())).collect();
     // candidates
@@ -137,7 +175,16 @@ pub fn check_query(c: &QueryCase) -> CaseResult {
             std::thread::sleep(std::time::Duration::from_micros(150));
         }
     }
-    let (raw, errs) = if c.errs_first {
+    let (raw, errs) = if c.drop_half == 1 {
+        // the results are of no interest to this caller: the errors must still all arrive
+        drop(ok_resp);
+        let errs = if c.use_iter { err_resp.into_iter().collect::<Vec<_>>() } else { err_resp.all() };
+        (vec![], errs)
+    } else if c.drop_half == 2 {
+        drop(err_resp);
+        let raw = if c.use_iter { ok_resp.into_iter().collect::<Vec<_>>() } else { ok_resp.all() };
+        (raw, vec![])
+    } else if c.errs_first {
         let errs = if c.use_iter { err_resp.into_iter().collect::<Vec<_>>() } else { err_resp.all() };
         let raw = if c.use_iter { ok_resp.into_iter().collect::<Vec<_>>() } else { ok_resp.all() };
         (raw, errs)
@@ -155,7 +202,7 @@ pub fn check_query(c: &QueryCase) -> CaseResult {
         ensure!(f != t, "distance-self-pair", "result pairs track {} with itself", f);
     }
     let (got, want) = (norm(got), norm(want));
-    if got != want {
+    if c.drop_half != 1 && got != want {
         let missing: Vec<&Item> = want.iter().filter(|x| !got.contains(x)).take(4).collect();
         let extra: Vec<&Item> = got.iter().filter(|x| !want.contains(x)).take(4).collect();
         return Err(Fail::new(
@@ -163,7 +210,7 @@ pub fn check_query(c: &QueryCase) -> CaseResult {
             format!("{} results, expected {}; missing e.g. {:?}; unexpected e.g. {:?}; executed order {:?}", got.len(), want.len(), missing, extra, log.iter().filter(|e| e.0 != "store.cmd.end").map(|e| (e.0, e.1 & 0xffff, e.2)).collect::<Vec<_>>()),
         ));
     }
-    ensure!(errs.len() == want_errors, "distance-errors", "{} error items, expected {} (one per compatible stored track lacking the class)", errs.len(), want_errors);
+    ensure!(c.drop_half == 2 || errs.len() == want_errors, "distance-errors", "{} error items, expected {} (one per compatible stored track lacking the class)", errs.len(), want_errors);
     for e in &errs {
         ensure!(e.is_err(), "distance-errors", "an Ok value was delivered on the error stream");
     }
@@ -195,6 +242,8 @@ pub fn check_query(c: &QueryCase) -> CaseResult {
         .label_if(owned_mutual, "owned_mutually_compatible")
         .label_if(want_errors > 0, "missing_class_errors")
         .label_if(c.only_baked, "only_baked")
+        .label_if(merged > 0, "stored_tracks_with_merge_history")
+        .label_if(c.drop_half > 0, "one_stream_dropped_unread")
         .label_if(want.is_empty(), "no_results"))
 }
 
@@ -225,9 +274,10 @@ pub fn query_case() -> impl Strategy<Value = QueryCase> {
         proptest::collection::vec(any::<u16>(), 16),
         any::<u16>(),
         proptest::bool::weighted(0.8),
-        prop_oneof![30 => proptest::collection::vec((0u8..8, 0u16..1500), 0..3), 1 => (0u8..6, 60_000u16..65_000).prop_map(|x| vec![x])],
+        (prop_oneof![30 => proptest::collection::vec((0u8..8, 0u16..1500), 0..3), 1 => (0u8..6, 60_000u16..65_000).prop_map(|x| vec![x])],
+        (prop_oneof![3 => Just(vec![]), 2 => proptest::collection::vec((0u8..7, 0u8..7, proptest::bool::weighted(0.3)), 1..4)], prop_oneof![6 => Just(0u8), 1 => Just(1u8), 1 => Just(2u8)])),
     )
-        .prop_map(|(shards, stored, foreign, owned_ids, owned, class, only_baked, (use_iter, errs_first), choices, caller_pos, controlled, delays)| {
+        .prop_map(|(shards, stored, foreign, owned_ids, owned, class, only_baked, (use_iter, errs_first), choices, caller_pos, controlled, (delays, (merges, drop_half)))| {
             // owned ids mostly name stored tracks (every 4th one stays arbitrary = possibly missing)
             let owned_ids: Vec<u64> = owned_ids
                 .iter()
@@ -249,6 +299,8 @@ pub fn query_case() -> impl Strategy<Value = QueryCase> {
             controlled,
             slow_metric_us: if delays.len() == 2 { 60 } else { 0 },
             delays,
+            merges,
+            drop_half,
         }})
 }
 
